@@ -14,6 +14,9 @@ use crate::error::CgtError;
 use crate::models::{GbpTransaction, Match, Operation, Section104Holding};
 use chrono::NaiveDate;
 use rust_decimal::Decimal;
+#[cfg(feature = "verif-hooks")]
+use crate::verif_map::Map as HashMap;
+#[cfg(not(feature = "verif-hooks"))]
 use std::collections::HashMap;
 
 /// Result of matching a disposal against acquisitions.
